@@ -27,8 +27,8 @@ PLANS = {
         "floor": 2000,
     },
     "C03": {
-        "quick": [sess("mixed", "C03", 300, 20), sess("alloc", "C03", 300, 15), sess("rootfill", "C03", 300, 15), sess("dirfill", "C03", 150, 15)],
-        "thorough": [sess("mixed", "C03", 4000, 300), sess("alloc", "C03", 4000, 300), sess("rootfill", "C03", 4000, 180), sess("dirfill", "C03", 3000, 180)],
+        "quick": [sess("mixed", "C03", 300, 20), sess("alloc", "C03", 300, 15), sess("rootfill", "C03", 300, 15), sess("dirfill", "C03", 150, 15), job("interleave")],
+        "thorough": [sess("mixed", "C03", 4000, 300), sess("alloc", "C03", 4000, 300), sess("rootfill", "C03", 4000, 180), sess("dirfill", "C03", 3000, 180), job("interleave", timeout=3600)],
         "floor": 2000,
     },
     "C04": {
@@ -148,18 +148,18 @@ ASSUMPTIONS = {
 LEVEL_TEXT = {
     "C01": "Exploration: reference-model monitor over ~10^6 executed API calls per quick run (random histories over the configuration grid, several live handles); every call's result kind and the resulting tree are judged. Right level because the property quantifies over histories x configurations, which can only be sampled; bounded-exhaustive enumeration of short histories is added in the thorough tier.",
     "C02": "Exploration: byte-array+cursor model monitor on every read/write/seek/truncate of random interleavings over 1-6 open files plus an executed boundary grid around cluster multiples for every cluster size class.",
-    "C03": "Exploration: independent fsck of the raw image after every single call of random and fill-to-full histories; invariant-at-quiescent-point monitor.",
+    "C03": "Exploration: independent fsck of the raw image after every single call of random and fill-to-full histories, plus scripted histories in which two or three files grow alternately cluster by cluster (round link values, links across table sectors), are remounted, refilled and removed; invariant-at-quiescent-point monitor.",
     "C04": "Exploration: three-way comparison (session model, second mount of a copy, independent decode) at every call boundary, plus extents-vs-content for every live handle.",
-    "C05": "Exploration: online conservation monitor (stats() == raw free count after every call, FS-info after every unmount, out-of-space admissibility) over allocation heavy histories on tiny and regular volumes; plus a fault variant: a write whose payload transfer fails once (with and without a successful retry) followed by close and remove must return every cluster.",
+    "C05": "Exploration: online conservation monitor (stats() == raw free count after every call, FS-info after every unmount, out-of-space admissibility) over allocation heavy histories on tiny and regular volumes, fill-to-full / delete-all cycles up to the largest FAT12 and FAT16 volumes the formatter accepts (cluster numbers right below the reserved table values); plus a fault variant: a write whose payload transfer fails once (with and without a successful retry) followed by close and remove must return every cluster.",
     "C10": "Exploration: byte-level comparison of FAT copies / reserved entries / padding / FAT32 top nibbles between consecutive call boundaries, on library-made and foreign volumes (1-3 copies, mirroring on/off), one session in six on a short-transfer device.",
     "C11": "Exploration: offline checker over the device write log of every call against the independent region/ownership map.",
-    "C12": "Exploration: temporal monitor (structural-change latch vs. dirty bit) at every call boundary, with a copy of the image mounted at every boundary; mount-time status byte presets (0x01, 0x02, 0x03, 0x80, ...) with and without the extended boot signature; plus a fault variant (one-shot write fault at every device write of scripted histories, retried).",
+    "C12": "Exploration: temporal monitor (structural-change latch vs. dirty bit) at every call boundary, with a copy of the image mounted at every boundary; mount-time status byte presets (0x01, 0x02, 0x03, 0x80, ...) with and without the extended boot signature, FAT[1] clean-shutdown / hard-error bits cleared; plus a fault variant (one-shot write fault at every device write of scripted histories, retried).",
 }
 LEVEL_TEXT.update({
     "C06": "Exploration with an exhaustively executed sub-space: real format_volume runs over an option grid and size thresholds are validated by the independent decoder and by mounting; the boot-sector hook sweeps sector counts (quick: windows around every threshold, a stride over 2^32 and the first 300000 sizes; thorough: every one of the 2^32 sizes for default options). Checked (overflow checks on) and release-like (wrapping) profiles.",
-    "C07": "Exploration with exhaustively executed sub-spaces: every value of every 8- and 16-bit BPB field on four valid base images, 32-bit fields at boundary values, random multi-field combinations, FS-info contents and random sectors, FS-info / backup pointers swept with the expected sector planted at the target (so that the range check decides, not the signature check); panics/budget overruns captured, accepted volumes compared with an independent 128-bit parse. Two build profiles.",
+    "C07": "Exploration with exhaustively executed sub-spaces: every value of every 8- and 16-bit BPB field on four valid base images, 32-bit fields at boundary values, random multi-field combinations, FS-info contents and random sectors, small values under every pattern of the four top bits in the 32-bit fields, FS-info / backup pointers swept with the expected sector planted at the target (so that the range check decides, not the signature check); panics/budget overruns captured, accepted volumes compared with an independent 128-bit parse. Two build profiles.",
     "C15": "Exploration with an exhaustively executed sub-space: every BMP scalar value in three positions, every length 0..300 for five unit patterns, dots/spaces, case-mapping characters and random names, each driven through create/lookup-matrix/rename/remove in its own monitored session (every length also into a directory prepared with released slot runs of 1..5 slots in front of live long names; one session in four on a short-transfer device) (reference tree + raw decode + byte-level no-side-effect check).",
-    "C17": "Exploration with an exhaustively executed sub-space: all order/checksum/fill patterns for runs of up to 3 long-name slots x 5 followers, every value of every byte of a 3-slot base run, maximal/over-long runs, runs of every length 1..20 with released (0xE5) long-name slots, complete runs followed by a stray slot with every order byte, orphan starts, random slot soup; fixed-root and cluster-chain directories; dynamic and fixed-buffer builds. Oracle: independent LFN state machine + panic/budget capture.",
+    "C17": "Exploration with an exhaustively executed sub-space: all order/checksum/fill patterns for runs of up to 3 long-name slots x 5 followers, every value of every byte of a 3-slot base run, maximal/over-long runs, runs of every length 1..20 with released (0xE5) long-name slots, complete runs followed by a stray slot with every order byte, orphan starts, short names whose bytes form multi-byte UTF-8 sequences at every position, random slot soup; a logger that renders every warn!/error! record is installed; fixed-root and cluster-chain directories; dynamic and fixed-buffer builds. Oracle: independent LFN state machine + panic/budget capture.",
 })
 LEVEL_TEXT.update({
     "C16": "Exploration: collision-engineered directory populations (same 6-character prefix, same prefix+extension+16-bit name hash found by brute force, alias look-alikes, names with ~N inside, name hashes 0xFFFD..0xFFFF and 0 that force the retry to wrap, every ASCII punctuation character in the alias-relevant positions, dots/spaces/empty bases, non-ASCII, deletions and renames in between) created under the session monitors: raw short-name legality, duplicate short names (I8), checksum link (I7), device-call budget for termination.",
@@ -175,7 +175,7 @@ LEVEL_TEXT.update({
     "C19": "Exploration (differential): the same driver compiled with three feature sets replays identical seeded histories (every long-name length 1..255, random sessions, foreign images, random directory slot streams); final image SHA-256 and observation traces are compared pairwise offline (full vs no-alloc on everything; full vs no-unicode on ASCII, exact-case and slot-stream sets).",
 })
 LEVEL_TEXT.update({
-    "C20": "Exploration: sparse simulated devices from 4 GiB to 16 TiB (512-byte sectors up to 2^32-1 sectors, 4 KiB sectors up to the FAT32 cluster limit, a FAT with 2^28 entries) are laid down without zero-fill with the next-free hint at, before and past the last cluster, at the 4 GiB and 1 TiB marks, with the tail used or only the last cluster free; a scripted and a random history run under the reference-model, fsck, extents, FAT-copy, write-classifier and beyond-the-end monitors, in checked and wrapping builds.",
+    "C20": "Exploration: sparse simulated devices from 4 GiB to 16 TiB (512-byte sectors up to 2^32-1 sectors, 4 KiB sectors up to the FAT32 cluster limit, a FAT with 2^28 entries) are laid down without zero-fill with the next-free hint at, before and past the last cluster, at the 4 GiB and 1 TiB marks, with the tail used or only the last cluster free, with the root directory in cluster 2, in the last and in the last-but-one cluster; a scripted and a random history run under the reference-model, fsck, extents, FAT-copy, write-classifier and beyond-the-end monitors, in checked and wrapping builds.",
 })
 LEVEL_NOTE = {
     "*": "Trusted base: the harness (device, independent decoder fatck, reference model) and rustc's dynamic checks (overflow checks, debug assertions, bounds checks are ON in the relcheck profile). Only executed histories are covered; see evidence coverage for what was observed.",
